@@ -80,6 +80,7 @@ structure ClaimMsg where
   symbol : String
   token : String
   ctype : Nat          -- 0 unspecified, 1 burn, 2 lock
+  vspelling : Nat := 0 -- spelling of the validator address string (0 = canonical bech32)
   deriving Repr
 
 /-- `strings.ToLower` on ASCII symbols -/
@@ -133,7 +134,7 @@ def processSuccessfulClaim (s : BState) (final : Content) : R BState :=
     else .error (.err .ctype)
 
 /-- `CreateOracleClaimFromEthClaim` -/
-def claimOf (m : ClaimMsg) : Claim := ⟨prophecyId m.chain m.nonce m.sender, m.validator, claimContent m⟩
+def claimOf (m : ClaimMsg) : Claim := ⟨prophecyId m.chain m.nonce m.sender, m.validator, claimContent m, m.vspelling⟩
 
 /-- `msgServer.CreateEthBridgeClaim` -/
 def createClaim (ord : List Group → List Group) (vals : List Validator) (s : BState) (m : ClaimMsg) : R (BState × StatusText) :=
